@@ -51,6 +51,16 @@ def poset(tier, variant):
         rf = add('F0.r.Finished', 'rule_finished', feature=0, rule=0, deps=[prev])
         add('F0.Finished', 'feature_finished', feature=0, deps=[a_last, rf])
         return E
+    if variant == 'three-features':
+        # A is at the head while B and C are announced; which of them gets content first, and when A ends, is free
+        a_s = add('F0.Started', 'feature_started', feature=0)
+        add('F0.Finished', 'feature_finished', feature=0, deps=[a_s])
+        for fi, sn in ((1, 'b'), (2, 'c')):
+            fs = add('F%d.Started' % fi, 'feature_started', feature=fi, deps=[a_s])
+            s1 = add('%s.Started' % sn, 'scenario', feature=fi, scenario=sn, attempt=None, what='Started', deps=[fs])
+            s2 = add('%s.Finished' % sn, 'scenario', feature=fi, scenario=sn, attempt=None, what='Finished', deps=[s1])
+            add('F%d.Finished' % fi, 'feature_finished', feature=fi, deps=[s2])
+        return E
     if variant == 'immediate':
         # small poset plus the two free items that must be forwarded at once wherever they arrive
         f0s = add('F0.Started', 'feature_started', feature=0)
@@ -91,10 +101,16 @@ PREFIX_DEPTH = 4
 
 
 def body(chk):
+    obligations(chk, 'C11')
+
+
+def obligations(chk, prop, variants=None):
     """Exploration is partitioned by the first PREFIX_DEPTH linearisation choices and run in parallel workers (fork);
     each worker explores every path below its prefix; the parent merges verdicts and statistics."""
     import multiprocessing as mp
-    variants = ['basic', 'rule', 'immediate', 'mixed'] + (['two-scenarios'] if chk.tier == 'thorough' else [])
+    pfx = '' if prop == 'C11' else 'normalize.'
+    if variants is None:
+        variants = ['basic', 'rule', 'immediate', 'mixed', 'three-features'] + (['two-scenarios'] if chk.tier == 'thorough' else [])
     bound = ('every linearisation (chosen symbolically) of the event posets %s: 2 features, one scenario retried once '
              '(attempt counter symbolic k < 2^32: attempts k and k+1), a second scenario top-level / inside a rule%s; '
              'run-Started first, run-Finished last; inner writer futures ready at once'
@@ -109,7 +125,7 @@ def body(chk):
 
     def ob(name):
         if name not in obs:
-            obs[name] = chk.add(Obligation('C11.%s' % name, bound))
+            obs[name] = chk.add(Obligation('%s.%s%s' % (prop, pfx, name), bound))
             obs[name].verdict = 'holds'
         return obs[name]
     npaths = 0
@@ -135,7 +151,7 @@ def body(chk):
     # per-item delivery counts as the symbolic execution
     samples = [x for r in results for x in r.get('samples', [])]
     step = max(1, len(samples) // (4 if chk.tier == 'quick' else 24))
-    agree = chk.add(Obligation('C11.model-agrees-with-native-normalize', 'sampled explored linearisations'))
+    agree = chk.add(Obligation('%s.%smodel-agrees-with-native-normalize' % (prop, pfx), 'sampled explored linearisations'))
     agree.kind = 'witness'
     agree.verdict = 'witness-ok'
     n = 0
@@ -152,9 +168,9 @@ def body(chk):
             break
     if agree.verdict == 'witness-ok':
         agree.detail = '%d linearisations: identical output and delivery counts' % n
-    w = chk.add(Obligation('C11.witness', 'exploration'))
+    w = chk.add(Obligation('%s.%switness' % (prop, pfx), 'exploration'))
     w.kind = 'witness'
-    w.verdict = 'witness-ok' if npaths >= 100 and 'lossless-permutation-preserving-per-attempt-order' in obs else 'witness-missing'
+    w.verdict = 'witness-ok' if npaths >= (100 if len(variants) > 1 else 50) and 'lossless-permutation-preserving-per-attempt-order' in obs else 'witness-missing'
     w.detail = '%d linearisations in %d partitions' % (npaths, len(tasks))
     chk.assumptions += ['inner writer futures complete at once; Metadata is opaque; posets with 2 features and <= 3 scenarios (larger posets outside the claim)',
                         'LinkedHashMap modelled as an insertion-ordered association map (re-insert moves to the back)']
@@ -423,10 +439,20 @@ def judge(res):
         err = 'run-Started was not forwarded at once'
     # head-of-line: after feeding prefix i, everything the sequentialisation can already emit must have been emitted:
     # compute the expected number with a reference normaliser
-    exp = reference_counts(inp)
-    if exp != after and not err:
-        i = [j for j in range(len(exp)) if exp[j] != after[j]][0]
-        err = 'after item %d (%s) the inner writer had %d events, a head-of-line forwarder has %d' % (i, inp[i], after[i], exp[i])
+    # The reference outputs features in the order of their Started events; the property does not fix that order, so the
+    # comparison is made only while the implementation's output so far is in the reference's order (else the shape checks
+    # above judge it): then it must have forwarded exactly what the reference has.
+    ref_out, exp = _reference(inp)
+    key_ = lambda e: tuple(str(x) for x in e)  # noqa
+    ref_keys = [key_(e) for e in ref_out]
+    if not err:
+        for i in range(len(exp)):
+            so_far = [key_(e) for e in out[:after[i]]]
+            if so_far != ref_keys[:len(so_far)]:
+                break                      # a different (possibly legal) order: not comparable any more
+            if after[i] != exp[i]:
+                err = 'after item %d (%s) the inner writer had %d events, a head-of-line forwarder has %d' % (i, inp[i], after[i], exp[i])
+                break
     errs['head-of-line-events-are-forwarded-at-once'] = err
     # 4. sequential input passes through unchanged, event by event
     if inp == seq_order(inp):
@@ -562,7 +588,7 @@ def native(chk, res, tag):
             lines.append('item scenario %s %s %s %s r=%s' % (e[1], '-' if e[2] is None else 'r', e[3], e[5].lower(), r))
     d = os.path.join(common.EVID, 'replay')
     os.makedirs(d, exist_ok=True)
-    path = os.path.join(d, 'C11-%s.script' % re.sub(r'[^a-z0-9]+', '-', tag))
+    path = os.path.join(d, '%s-normalize-%s.script' % (chk.prop, re.sub(r'[^a-z0-9]+', '-', tag)))
     r, out = replay.run_script('\n'.join(lines) + '\n', path, timeout=60)
     chk.replays += 1
     if r is None:
